@@ -81,6 +81,9 @@ type OvCfg struct {
 	Scripts                                                      map[string]string // common slot -> path relative to the source root
 	ScriptCid                                                    map[string]string
 	ScriptMt                                                     map[string]int
+	// NestedArch: `overrides.<format>.<format>.arch` - the format's own architecture spelling, set in its override block only
+	// (not part of the abstract configuration the layout clauses read: used where a run is compared with the library's build)
+	NestedArch string
 }
 
 var commonSlots = []string{"preinstall", "postinstall", "preremove", "postremove"}
@@ -473,6 +476,11 @@ func (c *Cfg) YAML(root string) string {
 						w.line("%s: %s", sl, yq(root+"/"+p))
 					}
 				}
+				w.close()
+			}
+			if o.NestedArch != "" {
+				w.open(f)
+				w.line("arch: %s", yq(o.NestedArch))
 				w.close()
 			}
 			if w.b.Len() == n { // a block that sets nothing overridable here: still a block
